@@ -315,11 +315,19 @@ func (mapSetSelf *MapSetDef[T, R]) ContainsValue(input R) bool {
 
 // IsSubsetByKey returns true or false by checking if set1 is a subset of set2
 func (mapSetSelf *MapSetDef[T, R]) IsSubsetByKey(input SetDef[T, R]) bool {
+	if input == nil {
+		return false
+	}
+
 	return IsSubsetMapByKey(*mapSetSelf, input.AsMap())
 }
 
 // IsSupersetByKey returns true or false by checking if set1 is a superset of set2
 func (mapSetSelf *MapSetDef[T, R]) IsSupersetByKey(input SetDef[T, R]) bool {
+	if input == nil {
+		return false
+	}
+
 	return IsSupersetMapByKey(*mapSetSelf, input.AsMap())
 }
 
